@@ -20,11 +20,14 @@ fn gen_spec_nodes(rng: &mut Rng, depth: usize) -> Vec<Node> {
     (0..n)
         .map(|_| {
             let spec = if rng.chance(5, 6) { Some(gen_spec(rng)) } else { None };
-            let kind = match rng.below(if depth < 3 { 8 } else { 5 }) {
+            let kind = match rng.below(if depth < 3 { 10 } else { 5 }) {
                 0 | 1 | 2 => Kind::Message,
                 3 => Kind::Target,
                 4 => Kind::Level,
                 5 => Kind::Highlight(gen_spec_nodes(rng, depth + 1)),
+                // groups that render in one build profile only: the width law applies to their (possibly empty) text
+                8 => Kind::Debug(gen_spec_nodes(rng, depth + 1)),
+                9 => Kind::Release(gen_spec_nodes(rng, depth + 1)),
                 _ => Kind::Group(gen_spec_nodes(rng, depth + 1)),
             };
             if rng.chance(1, 6) {
@@ -53,7 +56,7 @@ pub fn run(rep: &mut Report) {
     rep.rule = "patterns of 1-3 formatters (message, target, level, nested groups / highlights to depth 3) nearly all carrying a \
         spec with m,M in {0,1,2,3,5,8,13,40} (m<=M), fills {space ~ 0 é € 𝄞 } : < > { .}, both alignments; texts: empty, ASCII, \
         2/3/4-byte code points, combining sequences, lengths around m and M; every case is encoded under 4 chunkings (whole \
-        writes / two random short-write sinks that split inside code points / message Display in several pieces) which must all \
+        writes / two random short-write sinks that split inside code points, one of which also fails a quarter of its calls with EINTR / message Display in several pieces) which must all \
         agree with the reference pad(cut(text,M),m); non-trivial = some spec has a width; distinct = (pattern, message, target)".to_owned();
     rep.assume("lengths are counted in Unicode scalar values, as the statement says (combining marks count separately)");
     let n = if rep.tier == "thorough" { 2_000_000 } else { 150_000 };
@@ -86,6 +89,8 @@ pub fn run(rep: &mut Report) {
         for chunking in 0..4 {
             let pieces = if chunking == 3 { split_pieces(&ctx.message, rng) } else { vec![ctx.message.clone()] };
             let mut w = if chunking == 0 { CapW::new() } else { CapW::short(rng.next_u64()) };
+            // a sink that now and then reports EINTR: `write_all` retries, nothing may be charged twice
+            w.interrupts = chunking == 2;
             let r = trap::catch(|| with_record(&ctx, &pieces, |rec| enc.encode(&mut w, rec)));
             let d = |what: &str, got: &str| json!({"pattern": pattern, "message": ctx.message, "target": ctx.target,
                 "level": ctx.level.to_string(), "chunking": chunking, "what": what,
@@ -103,6 +108,7 @@ pub fn run(rep: &mut Report) {
             }
             rep.count("encodings_compared", 1);
             rep.count("sink_write_calls", w.write_calls as i64);
+            rep.count("sink_writes_interrupted", w.interrupted as i64);
             let got = match w.events() {
                 Ok(g) => g,
                 Err(_) => {
@@ -127,7 +133,5 @@ pub fn run(rep: &mut Report) {
             rep.sample(json!({"pattern": pattern, "message": ctx.message, "expected": text_of(&expected)}));
         }
     });
-    // the verdict can flip between profiles (debug_assertions, overflow checks): repeat in release (both tiers)
-    crate::subrun::merge(rep, "L4V_BIN_RELEASE", "C10", "release");
     rep.require(rep.counter("encodings_compared") > 1000, "fewer than 1000 encodings compared");
 }
